@@ -16,6 +16,7 @@
 //!   op 1 poll_ready | 2 call a | 3 poll a | 4 complete a b (0 ok 1 err 2 panic) | 5 drop a
 //!      | 6 advance a ms | 7 inner readiness a (0 ready 1 pending 2 error)
 //!      | 8 call a while the inner service's call() panics
+//!      | 9 svc.algorithm().record_failure() | 10 svc.algorithm().record_success(0)
 //!   trace = per event [code, in_flight(), limit()], then (all live futures dropped, inner ready)
 //!           [probe poll_ready code, in_flight(), limit()]; codes as in Model/Adaptive.v sv_step
 use std::cell::Cell;
@@ -355,6 +356,15 @@ fn run_service(s: &[i128]) -> Vec<i128> {
                 7 => {
                     mode.store(a as i64, Ordering::SeqCst);
                     70
+                }
+                // feedback reaching the shared algorithm without a call of this service
+                9 => {
+                    svc.algorithm().record_failure();
+                    80
+                }
+                10 => {
+                    svc.algorithm().record_success(Duration::ZERO);
+                    81
                 }
                 _ => {
                     if i >= NCALLS {
